@@ -58,6 +58,12 @@ def sh(cmd, cwd, timeout=3600):
         return 124, out, time.time() - t0
 
 
+def patch_path(prop, m):
+    """The change as written by the sub-agent, or its rebase onto a later `fix:` commit that touched the same hunk."""
+    r = os.path.join(d(prop, m), "patch_rebased.diff")
+    return r if os.path.exists(r) else os.path.join(d(prop, m), "patch.diff")
+
+
 def cmd_confirm(prop, m):
     meta = load_meta(prop, m)
     wt = f"/tmp/confirm-{prop}-{m}"
@@ -69,7 +75,7 @@ def cmd_confirm(prop, m):
         demo_cmd_env = f"CARGO_TARGET_DIR={os.environ.get('CONFIRM_TARGET', '/tmp/confirm-target')} {demo_cmd}"
         subprocess.run(["git", "apply", os.path.join(d(prop, m), "demo.diff")], cwd=wt, check=True)
         rc0, out0, t0 = sh(demo_cmd_env, wt, 1800)
-        subprocess.run(["git", "apply", os.path.join(d(prop, m), "patch.diff")], cwd=wt, check=True)
+        subprocess.run(["git", "apply", patch_path(prop, m)], cwd=wt, check=True)
         rc1, out1, t1 = sh(demo_cmd_env, wt, 1800)
         meta["confirmation"] = {
             "demo_cmd": demo_cmd,
@@ -89,7 +95,7 @@ def cmd_detect(prop, m, checks):
     if st:
         print("refusing: /repo is not clean:\n" + st)
         sys.exit(2)
-    subprocess.run(["git", "-C", "/repo", "apply", os.path.join(d(prop, m), "patch.diff")], check=True)
+    subprocess.run(["git", "-C", "/repo", "apply", patch_path(prop, m)], check=True)
     res = meta.setdefault("detection", {})
     try:
         for c in checks or [prop]:
